@@ -19,6 +19,8 @@ import (
 	"go/types"
 	"os"
 	"path/filepath"
+	"reflect"
+	"runtime"
 	"sort"
 	"strings"
 )
@@ -54,8 +56,12 @@ var (
 	problems []string
 )
 
+// curGen is the source file of the generator that is running: every problem is tagged with it so that a check only
+// looks at the generators its own Coq files depend on.
+var curGen = "main.go"
+
 func fail(format string, a ...interface{}) {
-	problems = append(problems, fmt.Sprintf(format, a...))
+	problems = append(problems, "["+curGen+"] "+fmt.Sprintf(format, a...))
 }
 
 func loadPkg(rel string) *pkgInfo {
@@ -219,7 +225,19 @@ func main() {
 	_ = os.MkdirAll(outDir, 0o755)
 
 	for _, g := range generators {
-		g()
+		curGen = "main.go"
+		if fn := runtime.FuncForPC(reflect.ValueOf(g).Pointer()); fn != nil {
+			file, _ := fn.FileLine(fn.Entry())
+			curGen = filepath.Base(file)
+		}
+		func() {
+			defer func() {
+				if r := recover(); r != nil {
+					fail("generator panicked: %v", r)
+				}
+			}()
+			g()
+		}()
 	}
 
 	dj, _ := json.MarshalIndent(map[string]interface{}{"functions": digest, "problems": problems}, "", " ")
